@@ -705,6 +705,7 @@ def run():
                                                              "none" if d["call"] is None else ("std" if d["call"][2] == 0 else "user"),
                                                              "moved" if d["moved"] else "kept"))
             if mo != d["out"] or mm != d["moved"]:
+                ck.stat("corr-respan", "DISAGREE")
                 ck.violation("Model/Span.v respan_std differs from Resolver::fold_function on error span %s, call span %s: model %s (moves=%s), impl %s (moved=%s)"
                              % (d["err"], d["call"], mo, mm, d["out"], d["moved"]),
                              {"src": c["src"], "err": d["err"], "call": d["call"], "model": mo, "impl": d["out"], "kind": "correspondence"})
